@@ -186,7 +186,7 @@ def _mask(ex, x, d):
 
 
 @scenario('C15', 'grad_api', ['torchtt.grad.watch', 'torchtt.grad.unwatch', 'torchtt.grad.grad', 'torchtt.grad.grad_list', 'torchtt.grad.watch_list'],
-          quick=[dict(case=c) for c in ('watch_all', 'watch_some', 'unwatch', 'grad_all', 'grad_indices', 'grad_indices_permuted', 'grad_list_flat', 'grad_list_nested', 'watch_list', 'grad_twice', 'grad_list_twice', 'grad_of_constant', 'grad_list_of_constant')],
+          quick=[dict(case=c) for c in ('watch_all', 'watch_some', 'unwatch', 'grad_all', 'grad_indices', 'grad_indices_permuted', 'grad_list_flat', 'grad_list_nested', 'grad_list_nested_rev', 'watch_list', 'grad_twice', 'grad_list_twice', 'grad_of_constant', 'grad_list_of_constant')],
           replay='grad_api')
 def grad_api(ob, case):
     """watch/unwatch toggle requires_grad of the selected cores and nothing else; grad / grad_list return the .grad of the cores, in the
@@ -290,11 +290,15 @@ def grad_api(ob, case):
         for c in y.attrs['cores']:
             c.requires_grad = True
         v2 = ex.binop('Add', val_, ex.call(ex.getattr(y, 'sum'), []))
-        g = ex.call(G['grad_list'], [v2, [x, y]], {'all_in_one': False})
+        # operands with different numbers of cores, in both orders
+        tensors = [x, y] if case == 'grad_list_nested' else [y, x]
+        g = ex.call(G['grad_list'], [v2, tensors], {'all_in_one': False})
         ob.prove('nested', isinstance(g, list) and len(g) == 2 and all(isinstance(q, list) for q in g))
+        if isinstance(g, list) and len(g) == 2 and all(isinstance(q, list) for q in g):
+            ob.prove('one_list_per_tensor', [len(q) for q in g] == [len(t.attrs['cores']) for t in tensors])
         g = [t for q in g for t in q] if isinstance(g, list) and all(isinstance(q, list) for q in g) else g
         order = None
-        want_t = list(cores) + list(y.attrs['cores'])
+        want_t = [c for t in tensors for c in t.attrs['cores']]
     if order is not None:
         want_t = [cores[k] for k in order]
     ob.prove('is_list', isinstance(g, list) and len(g) == len(want_t))
